@@ -12,7 +12,7 @@ GEN = []
 LEAN = ["Ymq.Props.C07"]
 AUDIT = "Ymq.Audit.C07"
 THEOREMS = ["Ymq.C07." + t for t in (
-    "mgRedc_spec mgMul_spec mg2adicInv_spec new_spec mulmod_spec mintMulmod_spec mulmod_overflow_carry_zero "
+    "mgRedc_spec mgMul_spec mg2adicInv_spec mgInv_spec new_spec mulmod_spec mintMulmod_spec mulmod_overflow_carry_zero "
     "add_spec sub_spec add_spec_partial sub_spec_partial add_512bit_counterexample "
     "redc_spec redc_spec_partial from_int_spec to_int_spec from_to_int redc_large_spec inv_spec gcd_spec "
     "M128_mul_spec M128_add_sub_spec M128_eq_ZmodN M128_inv2adic_spec M128_r_r2_spec").split()]
@@ -26,7 +26,8 @@ RULE = ("moduli: k = 1..8 words x styles {2^B-s, 2^(B-1)+s, all-ones, 2^j+1, sin
         "near-n pairs that force the overflow path of _mint_mulmod}; redc inputs x < n*R random / maximal / with all-ones words above the "
         "current row (family of the old carry defect); non-trivial = some operand outside {0,1}; distinct by request line")
 MODELLED = [
-    "arith_montgomery::{mg_2adic_inv, mg_redc, mg_mul} word-exact (Ymq/Model/Mg64.lean)",
+    "arith_montgomery::{mg_2adic_inv, mg_redc, mg_mul} word-exact (Ymq/Model/Mg64.lean); mg_inv = mg_redc + arith::inv_mod64 "
+    "(C08's step-by-step i128 extended-Euclid model, Ymq/Model/Arith.lean) + mg_mul (Ymq/Model/Mg64Inv.lean)",
     "arith_montgomery::ZmodN::{new, from_int, to_int, mul, add, sub, redc, redc_large, inv, gcd}, mint_lt, mint_add, mint_sub, "
     "mint_mulmod/_mint_mulmod word-exact incl. every debug_assert/assert/overflow/index panic site (Ymq/Model/ZmodN.lean on the "
     "shared limb library Ymq/Model/Limbs.lean); the arrays z (mulmod) and m (redc) are modelled by their live window",
@@ -337,6 +338,39 @@ def mg64_cases(rng, N):
             yield Case(f"mg_redc {n} {ninv} {x}")
         else:
             yield Case(f"mg_mul {n} {ninv} {gen.residue(rng, n)} {gen.residue(rng, n)}")
+    # mg_inv: moduli below and above 2^63 (inv_mod64 repair dd3553b), composite moduli with non-units
+    for i in range(N // 2):
+        c = rng.randrange(6)
+        if c == 0:
+            n = (1 << 63) + (rng.getrandbits(62) | 1)
+        elif c == 1:
+            n = W - rng.choice(SMALL + [rng.getrandbits(16) | 1])
+            n |= 1
+        elif c == 2:
+            # composite with small factors
+            n = rng.choice([3, 5, 9, 15, 21, 105, 3 ** 5, 5 * 7 * 11 * 13]) * (rng.getrandbits(rng.choice([1, 20, 50])) | 1)
+            n = n if n < W else 15
+        else:
+            n = gen.odd_modulus(rng, 1)
+        ninv = ninv_of(n)
+        r2 = W * W % n
+        c = rng.randrange(8)
+        if c == 0:
+            x = 0
+        elif c == 1:
+            # a multiple of a divisor of n when there is a small one
+            x = gen.residue(rng, n)
+            for p in (3, 5, 7, 11, 13):
+                if n % p == 0:
+                    x = (x - x % p) % n
+                    break
+        elif c == 2:
+            x = rng.getrandbits(64)              # any u64, not necessarily reduced
+        elif c == 3:
+            x = W % n                            # Montgomery form of 1
+        else:
+            x = gen.residue(rng, n)
+        yield Case(f"mg_inv {n} {ninv} {r2} {x}")
     # outside the documented domain (wrong ninv): only the checked profile has a defined answer
     for i in range(50):
         n = gen.odd_modulus(rng, 1)
@@ -379,6 +413,15 @@ def _int(ans):
 def oracle(case, ans):
     op = case.op
     a = case.args
+    if op == "mg_inv":
+        n, _, r2, x = [int(t) for t in a]
+        if math.gcd(x, n) != 1:
+            return None if ans == "none" else "mg_inv of a non-unit must be None"
+        # input x = a*R, output R/a = R^2/x (mod n), fully reduced
+        want = pow(x, -1, n) * W * W % n if n > 1 else 0
+        if r2 != W * W % n:
+            want = pow(x, -1, n) * r2 % n if n > 1 else 0
+        return None if ans == f"some {want}" else "mg_inv != R^2/x mod n"
     if op.startswith("mg_"):
         v = [int(x) for x in a]
         r = _int(ans)
@@ -469,6 +512,9 @@ def oracle(case, ans):
 def klass(case, ans):
     op = case.op
     bad = "" if (ans.replace(" ", "").replace(",", "").isdigit() or ans in ("true", "false", "none") or ans.startswith("some ")) else "/" + ans
+    if op == "mg_inv":
+        n = int(case.args[0])
+        return f"mg_inv/{'n>=2^63' if n >> 63 else 'n<2^63'}/" + ans.split(" ")[0]
     if op.startswith("mg_") or op.startswith("mint_"):
         return op + bad
     a = case.args
@@ -505,16 +551,19 @@ def nontrivial(case, ans):
     return any(len(x) > 1 for x in case.args[1:])
 
 
-CLAIM = ("Lean theorems, for all inputs, about word-exact models of the 64-bit routines (mg_redc, mg_mul), of the multiword ring ZmodN "
+CLAIM = ("Lean theorems, for all inputs, about word-exact models of the 64-bit routines (mg_2adic_inv, mg_redc, mg_mul, mg_inv), of the multiword ring ZmodN "
          "(new, mul = CIOS multiply-reduce + conditional subtraction, add, sub, redc, from_int, to_int, redc_large, inv relative to C09) and of the "
          "128-bit type M128 (inv_2adic, r_r2, mul, add, sub, and its equality with ZmodN on 1- and 2-word moduli): on the documented domain no panic site is "
          "reached, results are fully reduced and equal x*y/R, x+-y, x/R, x*R, x (round trip) modulo n; the res[SIZE]=1 branch of _mint_mulmod is "
          "proved unreachable. The models are tied to the code by differential runs in the release and checked profiles; a Python big-integer "
-         "oracle checks every in-domain implementation answer.")
+         "oracle checks every in-domain implementation answer. The hypothesis of inv_spec about arith_gcd::inv_mod is discharged for moduli "
+         "below 2^500 by Ymq.C09.zmodn_inv_spec / zmodn_gcd_spec (Ymq/Props/C07C09.lean, built on C09's model of arith_gcd).")
 LEVEL_NOTE = ("Trusted: Lean kernel (+propext, Classical.choice, Quot.sound); the hand-written models' correspondence to the Rust code (sampled by the "
               "harness in both profiles, not proved); Python integers in the oracle. The word-level refinement is proved in full (no Nat-level "
               "shortcut): all ZmodN theorems are about the limb-by-limb model. add/sub/redc/redc_large are proved for n < 2^511 (covers the documented "
               "500-bit range); for 512-bit moduli add/sub are wrong/panic (theorem add_512bit_counterexample) and that band is only compared, not "
               "oracle-checked here (it belongs to C03). bnum operators are modelled as Nat arithmetic; arith_gcd (inv_mod, big_gcd) enters as a named "
-              "hypothesis (C09). M128::inv_2adic is proved total and correct for the code after the /repo fix a0db7d0 (before it, the checked profile overflowed for n = (2^129+1)/3).")
+              "hypothesis of inv_spec here; Ymq/Props/C07C09.lean (C09's second pass) instantiates it with the C09 model and removes the hypothesis for n < 2^500. "
+              "Since /repo fix a69b7e9 the library entry point factor() refuses inputs above 500 bits, so the 501..512-bit band of ZmodN (where add/sub fail for "
+              "512-bit n) is no longer reachable through factor(); the public ZmodN constructor still admits it. mg_inv relies on C08's model/theorem of inv_mod64. M128::inv_2adic is proved total and correct for the code after the /repo fix a0db7d0 (before it, the checked profile overflowed for n = (2^129+1)/3).")
 TECHNIQUE = "Lean 4 proof about a hand model + differential correspondence check + spec oracle"
